@@ -60,11 +60,20 @@ impl<'tree> Expression<'tree> {
             "false" => Expression::Bool(false),
             "null" => Expression::Null,
             "array" => {
-                let items = node
-                    .named_children(cursor)
-                    .filter(|n| !n.is_extra())
-                    .map(ExpressionNode)
-                    .collect();
+                let mut items = Vec::new();
+                let mut has_item = false; // since the last separator
+                for n in node.children(cursor).filter(|n| !n.is_extra()) {
+                    match n.kind() {
+                        "[" | "]" => {}
+                        "," if has_item => has_item = false,
+                        // reject hole: [<item>, , <item>]
+                        "," => return Err(ParseError::new(n, ParseErrorKind::UnexpectedNodeKind)),
+                        _ => {
+                            items.push(ExpressionNode(n));
+                            has_item = true;
+                        }
+                    }
+                }
                 Expression::Array(items)
             }
             "function_expression" => Function::with_cursor(cursor).map(Expression::Function)?,
